@@ -187,6 +187,17 @@ def scipy_twin(model):
     return ScipyTwin(dist, params)
 
 
+def reference_percent_point(model):
+    """Quantile function to judge sampled values against: scipy's own ppf at the fitted parameters for the
+    scipy-backed families (so that anything the library does to the probabilities on the way is visible), the
+    model's own method for kernel estimates and point masses (judged by C03/C04)."""
+    inner = getattr(model, '_instance', None) or model
+    if getattr(inner, '_constant_value', None) is not None:
+        return model.percent_point
+    twin = scipy_twin(model)
+    return twin.percent_point if twin is not None else model.percent_point
+
+
 def laws(ctx, model, data, where, prop='C03', full=True):
     """The law oracle, with one refinement for the scipy-backed families: the library only delegates to
     scipy.stats, and scipy's own pdf / logpdf / cdf / ppf become mutually inconsistent for extreme fitted
